@@ -171,7 +171,7 @@ def run_one(args):
                 fired.append(pr)
         if fired:
             return k, mut, "killed:" + ",".join(fired), ""
-        rc, out = sh(["cargo", "test", "--offline", "--lib", "--", "--skip", "multi"], d, {"CARGO_TARGET_DIR": tdir}, timeout=900)
+        rc, out = sh(["cargo", "test", "--offline", "--lib", "--", "--skip", "multi"], d, {"CARGO_TARGET_DIR": tdir}, timeout=180)
         if rc == 124:
             return k, mut, "testfail(timeout)", ""
         m = re.search(r"test result: \w+\. (\d+) passed; (\d+) failed", out)
